@@ -56,6 +56,7 @@ class MockTransport:
                                                   channel_serializer=TransportDetails.CHANNEL_SERIALIZER_JSON, peer="tcp4:127.0.0.1:9000", is_server=False)
         self.is_closed = txaio.create_future()
         self.fail_next_send = None
+        self.on_send = None      # hook(msg_as_the_router_sees_it): called from inside send(), e.g. an in-process router that answers synchronously
 
     def send(self, msg):
         from autobahn.wamp.exception import TransportLost
@@ -73,6 +74,8 @@ class MockTransport:
         else:
             self.sent.append(msg)
         self.sent_raw.append(msg)
+        if self.on_send is not None:
+            self.on_send(self.sent[-1])
 
     def isOpen(self):
         return not self.closed
